@@ -9,6 +9,9 @@ import JunoModel.C01.ProofsAbs
 import JunoModel.C01.ProofsMisc
 import JunoModel.C01.ProofsAgree
 import JunoModel.C01.ProofsLegacyRestart
+import JunoModel.C01.ProofsVersion
+import JunoModel.C01.ProofsStateL
+import JunoModel.C01.ProofsChain
 /-!
 C01 — property theorems (statements only; helper lemmas are in `Proofs*.lean`).
 Every theorem in this module is an obligation listed in evidence/C01.json with its axioms.
@@ -115,6 +118,24 @@ theorem trie2_restart_independent (k : HashKind) (n : Nat) (ops ops' : List LOp)
     TrieL.rootHash k (TrieL.run k ops) = TrieL.rootHash k (TrieL.run k ops') := by
   rw [(trie2_commit_reopen_partial k n ops hv).1, (trie2_commit_reopen_partial k n ops' hv').1]
   exact spec_root_extensional k n _ _ hsame
+
+/-- **Reads through unresolved nodes.** `Trie.Get` resolves every unresolved node on its way and KEEPS the
+resolved copies in the tree (`LOp.get`, part of the histories of the two theorems above: reads may be
+interleaved anywhere without changing any root). Its answer, after any history of writes, `Hash()` calls, restarts
+and earlier reads, is the last value written (zero if deleted / never written). -/
+theorem trie2_get_through_unresolved_nodes (k : HashKind) (n : Nat) (ops : List LOp)
+    (hv : TrieL.ValidLOps n ops) (key : Path) (hk : key.length = n) :
+    (TrieL.getR (TrieL.run k ops) key).1 = labsRun ops key := by
+  have h := TrieL.run_invL k n ops hv
+  rw [(TrieL.getR_spec _ h.lazyOK key).2.2]
+  exact h.sem key hk
+
+/-- non-vacuity: a read between a restart and a delete resolves the sibling the delete then collapses into -/
+example : TrieL.rootHash .pedersen (TrieL.run .pedersen
+    [.put [true, false, true] (.felt 7), .put [true, false, false] (.felt 9), .put [false, true, true] (.felt 3),
+     .reopen, .get [true, false, false], .put [false, true, true] (.felt 0), .get [false, true, true], .reopen,
+     .get [true, false, true], .put [true, false, true] (.felt 0)])
+    = .add (.h .pedersen (.felt 9) (.felt 4)) 3 := by decide
 
 /-- non-vacuity: writes, restart, delete that collapses a binary node into an UNRESOLVED sibling edge,
 restart, re-insert -/
@@ -303,6 +324,195 @@ theorem stored_old_root_accepted_after_fix (pre pre' : Bool) (s : State.St) (h :
 set_option maxRecDepth 8000 in
 example : (State.runStored true [(true, State.deploy7), (false, State.nonce7)] (State.St.empty, .felt 0)).isSome = true := by
   decide
+
+/-! ## Process restarts at the state level (round 4)
+
+`StateL.run` (`ModelStateL.lean`) is the state update as `core/state` really runs it: for every block the
+contract trie, the class trie and the storage trie of every touched contract are OPENED from the node database
+(`state.New` per block → `trie2.New`): the empty trie if the state root the block starts from is zero (the
+database is not read), else the root node with everything below it unresolved, so that every write of the block
+resolves nodes on demand. The Bool in front of each diff says whether the tries are reopened for that block
+(`true` = what juno does for every block, and all that a process restart between two updates amounts to) or the
+in-memory objects of the previous block are kept. The node database is abstracted as in
+`trie2_commit_reopen_partial` (an unresolved node carries the subtree committed under its path). -/
+
+/-- **Restarts between updates change nothing (state level).** For every history, every choice of the blocks
+before which the tries are reopened from the database, both purge variants and both commitment formulas: the
+same histories are accepted and the same root comes out as for the model that keeps resolved trees for ever
+(`State.run`, the subject of the theorems above). Includes the soundness of `trie2.New`'s shortcut "state root
+zero ⇒ empty trie, do not read the database". -/
+theorem state_restart_independent (purge pre014 : Bool) (bs : List (Bool × State.Diff))
+    (hd : ∀ b ∈ bs, State.ValidDiff b.2) :
+    (StateL.run purge bs StateL.StL.empty).map (StateL.commitment pre014) =
+      (State.run purge (bs.map (·.2)) State.St.empty).map (State.commitment pre014) :=
+  StateL.run_commitment_eq purge pre014 bs hd
+
+/-- Corollary: with tries reopened at arbitrary blocks the root is still the protocol commitment of the abstract
+state (of the diffs alone: the restart flags do not occur on the right-hand side). -/
+theorem state_commitment_spec_with_restarts (pre014 : Bool) (bs : List (Bool × State.Diff))
+    (hd : ∀ b ∈ bs, State.ValidDiff b.2) (sl : StateL.StL)
+    (h : StateL.run true bs StateL.StL.empty = some sl) :
+    StateL.commitment pre014 sl = State.absCommitment pre014 (State.absState (bs.map (·.2))) := by
+  have e := state_restart_independent true pre014 bs hd
+  rw [h] at e
+  cases hr : State.run true (bs.map (·.2)) State.St.empty with
+  | none => simp [hr] at e
+  | some s =>
+    simp only [hr, Option.map, Option.some.injEq] at e
+    rw [e]
+    exact state_commitment_spec pre014 _ (by
+      intro d hd'
+      obtain ⟨b, hb, rfl⟩ := List.mem_map.mp hd'
+      exact hd b hb) s hr
+
+set_option maxRecDepth 8000 in
+/-- non-vacuity: three blocks with a restart before each: deploy 0x7 and write two of its slots and one slot of
+system contract 0x1; zero one slot of 0x7 (delete through unresolved nodes, collapse into an unresolved sibling)
+and the slot of 0x1 (purge); re-insert. Accepted. -/
+example : (StateL.run true
+    [(true, ⟨[], [], [(State.slot7, .felt 5)], [], [],
+        [(State.slot7, [(State.addr1, .felt 3), (State.slot7, .felt 4)]), (State.addr1, [(State.slot7, .felt 4)])]⟩),
+     (true, ⟨[], [], [], [], [(State.slot7, .felt 1)],
+        [(State.slot7, [(State.addr1, .felt 0)]), (State.addr1, [(State.slot7, .felt 0)])]⟩),
+     (true, ⟨[], [], [], [], [], [(State.slot7, [(State.addr1, .felt 9)])]⟩)]
+    StateL.StL.empty).isSome = true := by decide
+
+/-! ## The version test that selects the formula (round 4)
+
+`Version.parse` / `Version.lessThan` transcribe `core.ParseBlockVersion` and `semver.Version.LessThan`;
+`State.commitmentV ver s` is `State.Commitment(ver)` with the version STRING: `none` = the code dereferences the
+nil version an unparsable string leaves behind. -/
+
+/-- `ver.LessThan(0.14.0)` holds exactly for major 0, minor < 14 — whatever the patch number and any fourth part. -/
+theorem version_pre014_iff (s : String) (v : Version.V) (h : Version.parse s = some v) :
+    Version.pre014? s = some true ↔ v.major = 0 ∧ v.minor < 14 := by
+  simp only [Version.pre014?, h, Option.map, Option.some.injEq]
+  exact Version.lessThan_0_14_0 v
+
+/-- **The formula switches once.** Along versions that never decrease (`v.Compare(w) <= 0`), once a block is
+≥ 0.14.0 every later block is: this is the hypothesis `pre = true ∨ pre' = false` of
+`stored_old_root_accepted_after_fix`. -/
+theorem version_switch_once (v w : Version.V) (h : Version.le v w) :
+    Version.lessThan v Version.v0_14_0 = true ∨ Version.lessThan w Version.v0_14_0 = false := by
+  cases hw : Version.lessThan w Version.v0_14_0 with
+  | false => exact Or.inr rfl
+  | true => exact Or.inl (Version.pre014_antitone h hw)
+
+/-- **State root under a version string.** For a parsable version the commitment the code computes is the
+protocol commitment of the abstract state under the formula that version selects. -/
+theorem state_commitment_spec_version (ver : String) (b : Bool) (hv : Version.pre014? ver = some b)
+    (ds : List State.Diff) (hd : ∀ d ∈ ds, State.ValidDiff d) (s : State.St)
+    (h : State.run true ds State.St.empty = some s) :
+    State.commitmentV ver s = some (State.absCommitment b (State.absState ds)) := by
+  rw [← state_commitment_spec b ds hd s h]
+  exact State.stateCommitmentV_of_parse hv _ _
+
+/-- The error path: `Commitment` panics on a version string exactly when the string does not parse, the class
+trie is empty and the contract trie is not (lead in the notes; `CheckBlockVersion` rejects such a header before). -/
+theorem state_commitment_version_panics_iff (ver : String) (s : State.St) :
+    State.commitmentV ver s = none ↔
+      Version.parse ver = none ∧ (Trie2.hashRoot .poseidon s.cltrie).1 = .felt 0 ∧
+        (Trie2.hashRoot .pedersen s.ctrie).1 ≠ .felt 0 :=
+  State.stateCommitmentV_none_iff ver _ _
+
+/-- non-vacuity / boundary strings: two-component, empty, minor ≥ 10, leading zeros, fourth part ignored,
+`2^64` overflows `ParseUint`, 32 bytes are too long -/
+example : Version.pre014? "0.13.10" = some true ∧ Version.pre014? "0.14" = some false ∧
+    Version.pre014? "" = some true ∧ Version.pre014? "00.013.5" = some true ∧
+    Version.pre014? "0.14.0.x" = some false ∧ Version.pre014? "1.0.0" = some false ∧
+    Version.pre014? "0.x.1" = none ∧ Version.pre014? "0.18446744073709551616.0" = none ∧
+    Version.pre014? "0.18446744073709551615.0" = some false ∧
+    Version.pre014? "0.13.1.0000000000000000000000000" = none := by decide
+
+/-! ## What the node stores for every block (round 4)
+
+`Chain.runFinalise` / `Chain.runStore` (`ModelChain.lean`) are `Finalise` (`updateStateRoots`) and `Store` of
+`blockchain/statebackend`: for each block they produce what `writeBlockContent` stores — the header's
+`GlobalStateRoot` and the state update's `OldRoot` / `NewRoot`. `Chain.specRoots a bs` is the specification:
+the commitments of the abstract states after each block, each under its own block's version. -/
+
+/-- **Every stored root is the protocol commitment** (sequencer path, both variants of `updateStateRoots`):
+for EVERY block of a chain built by `Finalise` — not only the last — `Header.GlobalStateRoot` is the commitment of
+the abstract state after that block under that block's version, and the stored `NewRoot` is the header's root. -/
+theorem finalise_stores_protocol_roots (fixed : Bool) (bs : List (Bool × State.Diff))
+    (hd : ∀ b ∈ bs, State.ValidDiff b.2) (sts : List Chain.Stored)
+    (h : Chain.runFinalise fixed true bs (State.St.empty, .felt 0) = some sts) :
+    sts.map (·.root) = Chain.specRoots State.AbsSt.empty bs ∧ ∀ st ∈ sts, st.new = st.root :=
+  Chain.runFinalise_roots fixed bs hd _ _ _ _ Chain.stateOK_empty h
+
+/-- **Sync path: the node never stores a root that is not the protocol commitment**, whatever roots the
+blocks CLAIM: if `Store` accepts every block of a chain then for every block the stored header root is the
+commitment of the abstract state after that block (and the stored old / new roots are the claimed ones, which
+therefore were right). -/
+theorem store_stores_protocol_roots (fixed : Bool) (bs : List Chain.SBlock)
+    (hd : ∀ b ∈ bs, State.ValidDiff b.d) (sts : List Chain.Stored)
+    (h : Chain.runStore fixed true bs State.St.empty = some sts) :
+    sts.map (·.root) = Chain.specRoots State.AbsSt.empty (bs.map (fun b => (b.pre014, b.d))) ∧
+    sts.map (fun st => (st.old, st.new)) = bs.map (fun b => (b.old, b.new)) :=
+  Chain.runStore_roots fixed bs hd _ _ _ Chain.stateOK_empty h
+
+/-!
+DEFECT (known finding `finalise-stores-old-root-other-than-previous-block-root-at-commitment-formula-switch`).
+Full-strength statement: in a chain built by `Finalise` the `OldRoot` stored for block n is the `GlobalStateRoot`
+stored for block n-1 — `Chain.continuous (.felt 0) sts = true` for every accepted chain. FALSE on the unchanged
+tree (`updateStateRoots` overwrites the caller's `OldRoot` with the old state's commitment under the NEW block's
+version). Proved: the `_partial` form (one version regime), the negation witness, the full statement for the
+proposed repair. -/
+theorem finalise_old_root_is_previous_root_partial (purge pre014 : Bool) (ds : List State.Diff) (s : State.St)
+    (sts : List Chain.Stored)
+    (h : Chain.runFinalise false purge (ds.map (fun d => (pre014, d))) (s, State.commitment pre014 s) = some sts) :
+    Chain.continuous (State.commitment pre014 s) sts = true :=
+  Chain.runFinalise_continuous_same_version purge pre014 ds s sts h
+
+set_option maxRecDepth 8000 in
+/-- negation witness: block 0 (< 0.14.0) deploys 0x7, block 1 (≥ 0.14.0) sets its nonce: both are finalised, and
+the old root stored for block 1 is not the root stored for block 0 -/
+theorem finalise_old_root_not_previous_root_at_formula_switch :
+    (Chain.runFinalise false true [(true, State.deploy7), (false, State.nonce7)] (State.St.empty, .felt 0)).map
+      (Chain.continuous (.felt 0)) = some false := by decide
+
+/-- the proposed repair: every chain `Finalise` accepts is continuous -/
+theorem finalise_old_root_is_previous_root_after_fix (purge : Bool) (bs : List (Bool × State.Diff))
+    (s : State.St) (head : HTerm) (sts : List Chain.Stored)
+    (h : Chain.runFinalise true purge bs (s, head) = some sts) : Chain.continuous head sts = true :=
+  Chain.runFinalise_continuous_fixed purge bs s head sts h
+
+set_option maxRecDepth 8000 in
+/-- non-vacuity of the repaired variant on the witness chain: accepted and continuous -/
+example : (Chain.runFinalise true true [(true, State.deploy7), (false, State.nonce7)] (State.St.empty, .felt 0)).map
+      (Chain.continuous (.felt 0)) = some true := by decide
+
+set_option maxRecDepth 8000 in
+/-- non-vacuity of `store_stores_protocol_roots`: the same two blocks with the roots a feeder sends (old root =
+root stored for the previous block, new root = commitment under the block's own version) are accepted by the
+repaired `Store` and rejected by the unchanged one (known finding) -/
+example : (match State.run true [State.deploy7] State.St.empty, State.run true [State.deploy7, State.nonce7] State.St.empty with
+    | some s0, some s1 =>
+      let chain : List Chain.SBlock :=
+        [⟨true, State.deploy7, .felt 0, State.commitment true s0⟩,
+         ⟨false, State.nonce7, State.commitment true s0, State.commitment false s1⟩]
+      (Chain.runStore true true chain State.St.empty).isSome && (Chain.runStore false true chain State.St.empty).isNone
+    | _, _ => false) = true := by decide
+
+/-! ## Lead: `Trie.Update` of core/trie2 keeps the caller's value POINTER (round 4)
+
+`insert` stores `(*trienode.ValueNode)(value)` — no copy — so a caller that overwrites its felt variable after the
+call changes the leaf in place (`Trie2.poke`: no flag, no cached hash is touched); core/trie serialises the value
+at once. No caller in juno reuses the variable today (a seeded change of `updateClassTrie` did: one `leafVal`
+for all classes of a block). Not judged; the model transcribes the behaviour, the harness family
+`value-pointer-reuse` ties it (and checks that core/trie copies). -/
+
+/-- two keys written through ONE variable (`Update(k1, &v)`; `v = 7`; `Update(k2, &v)`): both leaves show the last value -/
+example : (Trie2.hashRoot .pedersen
+      (Trie2.update (Trie2.poke (Trie2.update .nil [true, false, true] (.felt 1)) [true, false, true] (.felt 7))
+        [true, false, false] (.felt 7))).1
+    = (Trie2.hashRoot .pedersen (Trie2.run .pedersen [.put [true, false, true] (.felt 7), .put [true, false, false] (.felt 7)])).1 := by
+  decide
+
+/-- after `Hash()` the cached hashes above the leaf are stale: the root does not follow the variable any more -/
+example : (Trie2.hashRoot .pedersen
+      (Trie2.poke (Trie2.hashRoot .pedersen (Trie2.update .nil [true, false] (.felt 1))).2 [true, false] (.felt 9))).1
+    = (Trie2.hashRoot .pedersen (Trie2.update .nil [true, false] (.felt 1))).1 := by decide
 
 /-! ## Not covered by a theorem
 
